@@ -168,6 +168,8 @@ func runC29(c *Ctx) error {
 	if c.Thorough() {
 		nlists = 8000
 	}
+	var keptBytes, keptCopy []byte
+	var keptItems string
 	for i := 0; i < nlists; i++ {
 		n := c.Intn(6)
 		if c.Chance(1, 5) {
@@ -186,6 +188,17 @@ func runC29(c *Ctx) error {
 			return err
 		}
 		enc := append([]byte{}, w.Bytes()...)
+		// the one-call encoder: the same bytes, and they stay what they are while later lists are encoded
+		if nb, err := util.NewLengthedBytesSlice(m); err != nil || !bytes.Equal(nb, enc) {
+			c.Violation("C29:encoders-differ", fmt.Sprintf("NewLengthedBytesSlice and WriteLengthedSlice encode a list of %d items differently (err %v)", len(m), err), map[string]string{"items": hxs(m)})
+		} else {
+			if keptBytes != nil && !bytes.Equal(keptBytes, keptCopy) {
+				c.Violation("C29:encoded-bytes-change-later", fmt.Sprintf("the bytes NewLengthedBytesSlice returned for %s read %s after one more list was encoded", keptItems, hx(keptBytes)),
+					map[string]string{"items": keptItems, "then_encoded": hxs(m)})
+			}
+			keptBytes, keptCopy, keptItems = nb, append([]byte{}, nb...), hxs(m)
+			c.Eval(1)
+		}
 		rest := c.Bytes(c.Intn(4))
 		c.Case("enc "+hxs(m), hx(enc))
 		// round trip with leftover
